@@ -198,6 +198,61 @@ def part_integrity(ctx, tmp):
     return len(cases), bad
 
 
+# --------------------------------------------------------------------------- anonymize: model vs code + end-to-end replay
+def part_anonymize(ctx, tmp):
+    from vyper.cli.vyper_compile import compile_files
+    from vyper.compiler.output_bundle import _anonymize
+    from vyper.exceptions import VyperException
+    rnd = ctx.rng("anon")
+    pool = ["..", "..", "a", "lib.vy", "0", "1", "01", "x1", "2", "b_c", "10"]
+    cases = [[".."], ["..", "lib.vy"], ["0", "lib.vy"], ["..", "..", "2"], ["a", ".."]]
+    for _ in range(40 if ctx.tier == "quick" else 400):
+        cases.append([rnd.choice(pool) for _ in range(rnd.randint(1, 5))])
+    q = lambda x: '"' + x + '"'  # noqa
+    exprs = ['String.concat "/" (anonymize [' + "; ".join(q(x) for x in c) + '])' for c in cases]
+    outs = coqrun.eval_cases("From Verif Require Import C18.Anonymize.\nOpen Scope string_scope.\n", exprs, "c18anon", shard=50)
+    bad = 0
+    for c, o in zip(cases, outs):
+        real = _anonymize("/".join(c))
+        if o.strip().strip('"') != real:
+            bad += 1
+            ctx.violation("correspondence-broken", "Anonymize.v differs from output_bundle._anonymize", {"segments": c, "model": o, "real": real})
+            break
+    # end-to-end replay of the refutation witness: ../lib.vy and 0/lib.vy
+    proj = tmp / "anon" / "proj"
+    (proj / "0").mkdir(parents=True)
+    (tmp / "anon" / "lib.vy").write_text("@internal\n@pure\ndef tag() -> uint256:\n    return 222\n")
+    (proj / "0" / "lib.vy").write_text("@internal\n@pure\ndef tag() -> uint256:\n    return 111\n")
+    (proj / "0" / "helper.vy").write_text("from . import lib\n\n@internal\n@pure\ndef h() -> uint256:\n    return lib.tag()\n")
+    (proj / "main.vy").write_text("import lib\nimport helper\n\n@external\ndef f() -> uint256:\n    return lib.tag() * 1000 + helper.h()\n")
+    cwd = os.getcwd()
+    os.chdir(str(proj))
+    try:
+        with warnings.catch_warnings():
+            warnings.simplefilter("ignore")
+            base = list(compile_files(["main.vy"], ["bytecode", "integrity"], paths=["0", ".."], include_sys_path=False).values())[0]
+            try:
+                arch = list(compile_files(["main.vy"], ["archive"], paths=["0", ".."], include_sys_path=False).values())[0]["archive"]
+            except VyperException:
+                arch = None   # refusing to write an ambiguous bundle is fine
+            (tmp / "anon" / "a.zip").write_bytes(arch or b"")
+            try:
+                again = base if arch is None else list(compile_files([str(tmp / "anon" / "a.zip")], ["bytecode", "integrity"], include_sys_path=False).values())[0]
+            except Exception as e:  # noqa
+                again = {"error": f"{type(e).__name__}: {str(e)[:200]}"}
+    finally:
+        os.chdir(cwd)
+    if again != base:
+        import zipfile
+        names = zipfile.ZipFile(str(tmp / "anon" / "a.zip")).namelist()
+        ctx.violation("failing-input", "two different sources get the same anonymised bundle path: one is dropped and the bundle does not reproduce the build",
+                      {"files": {"../lib.vy": "tag() -> 222", "0/lib.vy": "tag() -> 111", "0/helper.vy": "from . import lib", "main.vy": "import lib; import helper"},
+                       "cmd": "cd proj; vyper -f archive main.vy -p 0 -p .. -o a.zip; vyper -f bytecode,integrity a.zip",
+                       "archive_members": names, "original": base, "from_bundle": again}, key="C18:anonymize-collision")
+    ctx.corr["anonymize_cases"] = len(cases)
+    return len(cases), bad
+
+
 # --------------------------------------------------------------------------- (b) settings round trip: exhaustive differential
 def part_settings(ctx):
     from vyper.compiler.settings import OptimizationLevel, Settings, VenomOptimizationFlags
@@ -309,7 +364,7 @@ def part_histories(ctx, root):
 
     def job(p, c, fmts):
         return {"prog": p, "target": CORPUS[p]["target"], "layout": "layout.json" if "layout" in CORPUS[p] else None,
-                "cfg": c, "formats": fmts}
+                "paths": CORPUS[p].get("paths"), "cfg": c, "formats": fmts}
     sessions = []
     # S0 baseline: seed 0, corpus order, all formats
     sessions.append(("s0", 0, [job(p, c, FORMATS) for p in progs for c in cfgs]))
@@ -335,11 +390,18 @@ def part_histories(ctx, root):
     sessions.append(("s3", rnd.randrange(1, 2 ** 32), j3))
     # S4: every format requested alone (fresh CompilerData each), seed 3
     sessions.append(("s4", 3, [job(p, c, [f]) for p in progs for c in cfgs for f in FORMATS]))
+    # S5/S6: the EVM target varies between compilations inside one process, in opposite orders: anything cached per
+    # process from the first target compiled (e.g. the re-entrancy lock location) shows as a difference
+    evs = ["prague", "shanghai", "cancun", "london"]
+    efmts = ["bytecode", "bytecode_runtime", "layout", "abi"]
+    eprogs = progs if ctx.tier == "thorough" else ["locked", "counter", "token", "diamond", "exports", "structs"]
+    sessions.append(("s5", 4, [job(p, dict(c, evm=e), efmts) for p in eprogs for c in cfgs for e in evs]))
+    sessions.append(("s6", 5, [job(p, dict(c, evm=e), efmts) for p in reversed(eprogs) for c in cfgs for e in reversed(evs)]))
     if ctx.tier == "thorough":
         for k in range(4):
             sh = progs[:]
             rnd.shuffle(sh)
-            sessions.append((f"s{5 + k}", rnd.randrange(1, 2 ** 32), [job(p, c, rnd.sample(FORMATS, len(FORMATS))) for p in sh for c in cfgs]))
+            sessions.append((f"s{7 + k}", rnd.randrange(1, 2 ** 32), [job(p, c, rnd.sample(FORMATS, len(FORMATS))) for p in sh for c in cfgs]))
     with ThreadPoolExecutor(max_workers=3) as ex:
         results = list(ex.map(lambda s: run_session(root, s[2], s[1], s[0]), sessions))
     ref = {}
@@ -384,11 +446,98 @@ def part_histories(ctx, root):
     return compilations, compared
 
 
+# --------------------------------------------------------------------------- exploration: the CLI entry points
+def part_cli(ctx, root):
+    """`vyper -f <subset/order>` and `vyper-json` in fresh processes: same bytes for the same format whatever else is requested."""
+    rnd = ctx.rng("cli")
+    progs = ["counter", "token", "diamond", "exports", "shadowed_paths", "iface_json"] if ctx.tier == "quick" else list(CORPUS)
+    orders = ["bytecode,abi,layout", "layout,abi,bytecode", "abi", "bytecode", "bytecode_runtime,bytecode", "method_identifiers,layout"]
+    env0 = dict(os.environ, PYTHONPATH=str(REPO), PYTHONDONTWRITEBYTECODE="1")
+    jobs = []
+    for p in progs:
+        if "layout" in CORPUS[p]:
+            continue
+        for o in orders:
+            jobs.append((p, o, rnd.choice([0, 1, rnd.randrange(2 ** 32)])))
+
+    def run_cli(job):
+        p, o, hs = job
+        pr = root / p
+        cmd = [sys.executable, "-m", "vyper.cli.vyper_compile", "-f", o, str(pr / CORPUS[p]["target"])]
+        for sp in CORPUS[p].get("paths", ["."]):
+            cmd += ["-p", str(pr / sp)]
+        r = subprocess.run(cmd, env=dict(env0, PYTHONHASHSEED=str(hs)), capture_output=True, text=True, timeout=300, cwd=str(root))
+        lines = [l for l in r.stdout.splitlines() if l.strip()]
+        return r.returncode, lines, r.stderr[-300:]
+
+    def run_json(p):
+        pr = root / p
+        srcs = {}
+        for rel, txt in CORPUS[p]["files"].items():
+            if rel.endswith(".json"):
+                continue
+            srcs[f"{p}/{rel}"] = {"content": txt}
+        ifaces = {f"{p}/{rel}": {"abi": json.loads(txt)} for rel, txt in CORPUS[p]["files"].items() if rel.endswith(".json")}
+        target = f"{p}/{CORPUS[p]['target']}"
+        inp = {"language": "Vyper", "sources": srcs, "interfaces": ifaces,
+               "settings": {"outputSelection": {target: ["evm.bytecode.object", "abi"]},
+                            "search_paths": [f"{p}/{sp}" if sp != "." else p for sp in CORPUS[p].get("paths", ["."])]}}
+        f = root / f"stdjson_{p}.json"
+        f.write_text(json.dumps(inp))
+        r = subprocess.run([sys.executable, "-m", "vyper.cli.vyper_json", str(f)], env=dict(env0, PYTHONHASHSEED="7"),
+                           capture_output=True, text=True, timeout=300, cwd=str(root))
+        try:
+            out = json.loads(r.stdout)
+            c = out["contracts"][target]
+            c = list(c.values())[0]
+            return "0x" + c["evm"]["bytecode"]["object"].removeprefix("0x"), json.dumps(c["abi"]), None
+        except Exception as e:  # noqa
+            return None, None, f"{type(e).__name__}: {r.stdout[-300:]} {r.stderr[-300:]}"
+    with ThreadPoolExecutor(max_workers=3) as ex:
+        res = list(ex.map(run_cli, jobs))
+        jres = list(ex.map(run_json, [p for p in progs if "layout" not in CORPUS[p]]))
+    ref = {}
+    n = 0
+    for (p, o, hs), (rc, lines, err) in zip(jobs, res):
+        fmts = o.split(",")
+        if rc != 0 or len(lines) != len(fmts):
+            ctx.violation("correspondence-broken", "CLI run failed or printed an unexpected number of outputs",
+                          {"program": p, "formats": o, "returncode": rc, "lines": len(lines), "stderr": err})
+            return n
+        for fm, val in zip(fmts, lines):
+            n += 1
+            if (p, fm) not in ref:
+                ref[(p, fm)] = (val, o, hs)
+            elif ref[(p, fm)][0] != val:
+                ctx.violation("failing-input", f"`vyper -f` prints a different `{fm}` for the same input depending on the formats requested / hash seed",
+                              {"program": p, "files": CORPUS[p]["files"], "format": fm,
+                               "run_a": {"-f": ref[(p, fm)][1], "PYTHONHASHSEED": ref[(p, fm)][2], "value": ref[(p, fm)][0][:300]},
+                               "run_b": {"-f": o, "PYTHONHASHSEED": hs, "value": val[:300]}}, key=f"C18:cli-nondeterministic:{fm}")
+                return n
+    for p, (bc, abi, err) in zip([p for p in progs if "layout" not in CORPUS[p]], jres):
+        n += 1
+        if err is not None:
+            ctx.violation("correspondence-broken", "vyper-json run failed on a corpus program", {"program": p, "error": err})
+            return n
+        if (p, "bytecode") in ref and ref[(p, "bytecode")][0] != bc:
+            ctx.violation("failing-input", "vyper-json and `vyper -f bytecode` produce different bytecode for the same sources and settings",
+                          {"program": p, "files": CORPUS[p]["files"], "cli": ref[(p, "bytecode")][0][:200], "vyper_json": bc[:200]},
+                          key="C18:cli-vs-json-bytecode")
+            return n
+        if (p, "abi") in ref and json.loads(ref[(p, "abi")][0]) != json.loads(abi):
+            ctx.violation("failing-input", "vyper-json and `vyper -f abi` produce different ABIs", {"program": p}, key="C18:cli-vs-json-abi")
+            return n
+    ctx.corr["cli_comparisons"] = n
+    ctx.corr["cli_runs"] = len(jobs) + len(jres)
+    return n
+
+
 # --------------------------------------------------------------------------- exploration: bundles + mutation
 def part_bundles(ctx, root, tmp):
     from vyper.cli.vyper_compile import compile_files
     from vyper.cli.vyper_json import compile_from_input_dict, compile_json
     from vyper.compiler.settings import OptimizationLevel, Settings
+    from vyper.exceptions import JSONError
     stats = collections.Counter()
     cfgs = CFGS[:2] if ctx.tier == "quick" else CFGS
 
@@ -396,8 +545,8 @@ def part_bundles(ctx, root, tmp):
         lay = [str(pr / "layout.json")] if ("layout" in p and layout) else None
         with warnings.catch_warnings():
             warnings.simplefilter("ignore")
-            r = compile_files([str(pr / p["target"])], fmts, paths=[str(pr)], include_sys_path=False, settings=st,
-                              storage_layout_paths=lay)
+            r = compile_files([str(pr / p["target"])], fmts, paths=[str(pr / x) for x in p.get("paths", ["."])],
+                              include_sys_path=False, settings=st, storage_layout_paths=lay)
         return list(r.values())[0]
     cwd = os.getcwd()
     os.chdir(str(root))
@@ -423,9 +572,18 @@ def part_bundles(ctx, root, tmp):
                 sj = comp(pr, p, ["solc_json"], st())["solc_json"]
                 sj = sj if isinstance(sj, dict) else json.loads(sj)
                 sj = json.loads(json.dumps(sj))
-                with warnings.catch_warnings():
-                    warnings.simplefilter("ignore")
-                    res, warns = compile_from_input_dict(json.loads(json.dumps(sj)))
+                try:
+                    with warnings.catch_warnings():
+                        warnings.simplefilter("ignore")
+                        res, warns = compile_from_input_dict(json.loads(json.dumps(sj)))
+                except JSONError as ex:
+                    stats["solc_json_rejected"] += 1
+                    if stats["solc_json_rejected"] == 1:
+                        ctx.violation("failing-input", "the exported solc_json bundle is rejected by vyper-json: " + str(ex)[:120],
+                                      dict(info, error=str(ex), sources=list(sj["sources"]),
+                                           replay="vyper -f solc_json main.vy -p libs/zvendor -p libs/avendor > b.json; vyper-json b.json"),
+                                      key="C18:solc-json-stem-collision" if "namespace collision" in str(ex) else "C18:solc-json-rejected")
+                    continue
                 stats["solc_json_roundtrips"] += 1
                 data = list(res.values())[0]
                 wtxt = [str(x.message) for ws in warns.values() for x in ws]
@@ -512,7 +670,8 @@ def part_bundles(ctx, root, tmp):
 
 
 def run(ctx):
-    b = ctx.coq_build(["C18/Integrity.v", "C18/IntegrityProofs.v", "C18/SettingsModel.v", "C18/SettingsProofs.v", "C18/PropsC18.v"])
+    b = ctx.coq_build(["C18/Integrity.v", "C18/IntegrityProofs.v", "C18/SettingsModel.v", "C18/SettingsProofs.v", "C18/Anonymize.v",
+                       "C18/PropsC18.v"])
     tmp = Path(tempfile.mkdtemp(prefix="c18_"))
     found_before = len(ctx.violations)
     try:
@@ -525,28 +684,36 @@ def run(ctx):
         if (coqrun.COQ / "C18" / "SettingsModel.vo").exists():
             n_s, b2 = part_settings(ctx)
             bad += b2
+        n_a = 0
+        if (coqrun.COQ / "C18" / "Anonymize.vo").exists():
+            n_a, b3 = part_anonymize(ctx, tmp)
+            bad += b3
         comps, compared = part_histories(ctx, root)
         stats = part_bundles(ctx, root, tmp)
+        n_cli = part_cli(ctx, root)
     finally:
         shutil.rmtree(tmp, ignore_errors=True)
     if not b["ok"] and len(ctx.violations) == found_before:
         ctx.violation("theorem-broken", f"{b.get('failed_lemma')} in {b['file']}",
                       {"theorem": b.get("failed_lemma"), "file": b["file"], "coq_output": b["out"][-1500:]})
     ctx.corr.update({k: int(v) for k, v in stats.items()})
-    ctx.corr["evaluations"] = n_i + n_s + compared + sum(stats.values())
-    ctx.corr["distinct_nontrivial"] = n_i + n_s + comps + sum(stats.values())
+    ctx.corr["evaluations"] = n_i + n_s + n_a + compared + sum(stats.values()) + n_cli
+    ctx.corr["distinct_nontrivial"] = n_i + n_s + n_a + comps + sum(stats.values())
     ctx.corr["rule"] = ("integrity DAGs + settings values compared model-vs-code (distinct inputs); history compilations = distinct "
                         "(program, config, session position); comparisons = per output format against the first occurrence")
     ctx.extra["explanation"] = (
         "PROVED (Coq, all inputs, under the stated SHA-256 hypotheses): integrity_injective, override_changes_hash, "
-        "override_vs_none_separated, settings_roundtrip(+_exact,+_stable); tied to the code by evaluating the model's hashing "
+        "override_vs_none_separated, settings_roundtrip(+_exact,+_stable); anonymize_injective_on_inputs is REFUTED (witness replayed on "
+        "the compiler) and proved only for paths without all-digit segments; tied to the code by evaluating the model's hashing "
         f"expression with real sha256 on {n_i} generated import DAGs (also comparing which strings the real code hashes, in order) "
         f"and by an exhaustive differential of {n_s} Settings values. EXPLORED ONLY (no theorem possible about interpreter state): "
         f"{comps} compilations of {len(CORPUS)} corpus programs in {ctx.corr.get('history_sessions')} fresh processes under "
         f"PYTHONHASHSEED {ctx.corr.get('hash_seeds')}, different compile histories and output-format orders/subsets, "
         f"{compared} byte comparisons; {stats.get('archive_roundtrips', 0)} archive and {stats.get('solc_json_roundtrips', 0)} "
         f"solc_json export->recompile round trips; {stats.get('source_mutations', 0)} source and {stats.get('override_mutations', 0)} "
-        f"override mutations each changing the integrity sum; {stats.get('tampered_bundles', 0)} tampered bundles flagged.")
+        f"override mutations each changing the integrity sum; {stats.get('tampered_bundles', 0)} tampered bundles flagged; "
+        f"{ctx.corr.get('cli_runs')} runs of the CLI entry points (`vyper -f` with different subsets/orders under different hash seeds, "
+        f"vyper-json on the same sources), {n_cli} output comparisons.")
     ctx.extra["exploration_counts"] = {"compilations": comps, "comparisons": compared, **{k: int(v) for k, v in stats.items()}}
     ctx.trusted += ["Coq 8.16.1 kernel + vm_compute", "hashlib.sha256", "zipfile / json libraries (bundle syntax)",
                     "hand models coq/C18/Integrity.v, SettingsModel.v tied by differential each run"]
